@@ -24,9 +24,10 @@ SameReconcile ==
     phase = "done" =>
         LET exact == TD!SingleExactD(DSeq, DN!FromInt(par.total), par.single, DN!FromInt(par.buffer), par.cap)
             ps == TD!PrefixSums(SplitD, DN!FromInt(par.buffer))
-            rc == TD!ReconcileD(ps, Len(split), 1, hist, DN!FromInt(par.total), DN!FromInt(par.fee), exact)
+            logged == [i \in 1..Len(hist) |-> IF hist[i] = None THEN TD!NoAnswer ELSE DN!FromInt(hist[i])]
+            rc == TD!ReconcileD(ps, Len(split), 1, logged, DN!FromInt(par.total), DN!FromInt(par.fee), exact)
         IN  /\ exact = SingleExact(par.total, par.single, par.buffer, par.cap)
-            /\ rc.k = k /\ rc.n = n /\ rc.used = Len(hist) /\ rc.honest = honest
+            /\ rc.k = k /\ DN!ToInt(rc.n) = n /\ rc.used = Len(hist) /\ rc.honest = honest
 
 Equiv == SameSeries /\ SameSplit /\ SameReconcile
 =============================================================================================
